@@ -112,8 +112,9 @@ PatMatch(env, p, s) ==
 (* references: the document designated by a reference string, RFC 3986 + RFC 6901 *)
 
 \* env.docs : sequence of [u |-> absolute URI without fragment (text), doc |-> value]; env.base : text
-DocIndex(env, u) == IF \E k \in DOMAIN env.docs : SameDoc(env.docs[k].u, u)
-                    THEN CHOOSE k \in DOMAIN env.docs : SameDoc(env.docs[k].u, u) ELSE 0
+\* the root document comes first: when the store also holds a document under the root's own URI, the referring document wins
+DocIndex(env, u) == LET M == { k \in DOMAIN env.docs : SameDoc(env.docs[k].u, u) } IN
+                    IF M = {} THEN 0 ELSE CHOOSE k \in M : \A j \in M : k <= j
 
 \* [ok, node, base] -- the value a reference designates and the base URI in effect inside it
 Target(env, ref) ==
